@@ -69,24 +69,25 @@ struct Pv {
     by: u8, // a second, healthy node in the fleet of a single-node case: 0 none, 1 present, 2 present and connected
     cl: u8, // which handle operations go through: 0 the fleet, 1 alternately a held clone, 2 a fresh clone each
     mf: u8, // which malformed reply the node sends
+    op: u8, // constructor: 0 `with_options`, 1 `new` (default options: 3 attempts, 1 s delay; only with max 3)
 }
 
-const PV_RANGES: [u8; 10] = [6, 6, 4, 5, 3, 4, 3, 3, 3, 3];
+const PV_RANGES: [u8; 11] = [6, 6, 4, 5, 3, 4, 3, 3, 3, 3, 2];
 
 impl Pv {
-    fn fields(&self) -> [u8; 10] {
-        [self.nm, self.tg, self.me, self.pa, self.to, self.dl, self.dt, self.by, self.cl, self.mf]
+    fn fields(&self) -> [u8; 11] {
+        [self.nm, self.tg, self.me, self.pa, self.to, self.dl, self.dt, self.by, self.cl, self.mf, self.op]
     }
-    fn from_fields(f: [u8; 10]) -> Pv {
-        Pv { nm: f[0], tg: f[1], me: f[2], pa: f[3], to: f[4], dl: f[5], dt: f[6], by: f[7], cl: f[8], mf: f[9] }
+    fn from_fields(f: [u8; 11]) -> Pv {
+        Pv { nm: f[0], tg: f[1], me: f[2], pa: f[3], to: f[4], dl: f[5], dt: f[6], by: f[7], cl: f[8], mf: f[9], op: f[10] }
     }
     fn parse(w: &str) -> Option<Pv> {
         let v: Vec<u8> = w.strip_prefix("p=")?.split('.').map(|x| x.parse::<u8>().ok()).collect::<Option<Vec<u8>>>()?;
-        if v.len() != 10 || v.iter().zip(PV_RANGES).any(|(x, r)| *x >= r) {
+        if !(v.len() == 10 || v.len() == 11) || v.iter().zip(PV_RANGES).any(|(x, r)| *x >= r) {
             return None;
         }
-        let mut f = [0u8; 10];
-        f.copy_from_slice(&v);
+        let mut f = [0u8; 11];
+        f[..v.len()].copy_from_slice(&v);
         Some(Pv::from_fields(f))
     }
     fn show(&self) -> String {
@@ -94,8 +95,8 @@ impl Pv {
     }
     /// Each field: the ordinary value half of the time, otherwise any of its values.
     fn random(rng: &mut Rng) -> Pv {
-        let mut f = [0u8; 10];
-        for (x, r) in f.iter_mut().zip(PV_RANGES) {
+        let mut f = [0u8; 11];
+        for (x, r) in f.iter_mut().zip(PV_RANGES).take(10) {
             if rng.chance(1, 2) {
                 *x = rng.below(r as u64) as u8;
             }
@@ -116,6 +117,9 @@ impl Pv {
         Duration::from_millis([80, 60, 120][self.to as usize])
     }
     fn delay(&self) -> Duration {
+        if self.op == 1 {
+            return Duration::from_secs(1); // DEFAULT_RETRY_DELAY
+        }
         [Duration::from_millis(15), Duration::ZERO, Duration::from_millis(1), Duration::from_millis(40)][self.dl as usize]
     }
     /// `FleetOptions.default_timeout`: nothing a correct fleet does depends on it (the node's own timeout
@@ -1076,19 +1080,35 @@ impl AnyFleet {
     fn with_delay(kind: &str, configs: Vec<NodeConfig>, max: usize, delay: Duration, pv: &Pv) -> AnyFleet {
         // the fleet-wide default differs from every node's own timeout: it must never be what a call waits for
         let opts = FleetOptions { default_timeout: pv.default_timeout(), retry_policy: RetryPolicy { max_attempts: max, delay } };
+        if pv.op == 1 {
+            // the twin constructor: default options. Only meaningful for a case that says max_attempts 3.
+            assert_eq!(max, 3, "p.op=1 needs max 3");
+            let f = match kind {
+                "b" => AnyFleet::B(Fleet::new(configs).expect("fleet")),
+                _ => AnyFleet::A(AsyncFleet::new(configs).expect("fleet")),
+            };
+            let o = match &f {
+                AnyFleet::B(f) => f.options(),
+                AnyFleet::A(f) => f.options(),
+            };
+            assert_eq!((o.retry_policy.max_attempts, o.retry_policy.delay), (3, Duration::from_secs(1)), "documented defaults");
+            return f;
+        }
         match kind {
             "b" => AnyFleet::B(Fleet::with_options(configs, opts).expect("fleet options")),
             _ => AnyFleet::A(AsyncFleet::with_options(configs, opts).expect("fleet options")),
         }
     }
     fn call(&self, env: &Env, variant: &str, name: &str, method: &str, params: &serde_json::Value) -> Returned {
+        // the node exists in every case: a `FleetError` here is a call that reported neither a reply nor a transport error
+        let refused = |e: repe::FleetError| Returned { class: format!("FleetError({})", format!("{e:?}").split('(').next().unwrap_or("?")), detail: None };
         match (self, variant) {
-            (AnyFleet::B(f), "json") => returned_json(f.call_json(name, method, Some(params)).expect("node exists")),
-            (AnyFleet::B(f), "jsonnp") => returned_json(f.call_json(name, method, None).expect("node exists")),
-            (AnyFleet::B(f), _) => returned_message(f.call_message(name, method).expect("node exists")),
-            (AnyFleet::A(f), "json") => returned_json(env.rt.block_on(f.call_json(name, method, Some(params))).expect("node exists")),
-            (AnyFleet::A(f), "jsonnp") => returned_json(env.rt.block_on(f.call_json(name, method, None)).expect("node exists")),
-            (AnyFleet::A(f), _) => returned_message(env.rt.block_on(f.call_message(name, method)).expect("node exists")),
+            (AnyFleet::B(f), "json") => f.call_json(name, method, Some(params)).map_or_else(refused, returned_json),
+            (AnyFleet::B(f), "jsonnp") => f.call_json(name, method, None).map_or_else(refused, returned_json),
+            (AnyFleet::B(f), _) => f.call_message(name, method).map_or_else(refused, returned_message),
+            (AnyFleet::A(f), "json") => env.rt.block_on(f.call_json(name, method, Some(params))).map_or_else(refused, returned_json),
+            (AnyFleet::A(f), "jsonnp") => env.rt.block_on(f.call_json(name, method, None)).map_or_else(refused, returned_json),
+            (AnyFleet::A(f), _) => env.rt.block_on(f.call_message(name, method)).map_or_else(refused, returned_message),
         }
     }
     /// `connect_all`: was `name` reported connected (Some(true)), failed (Some(false)) or neither (None)
@@ -1129,8 +1149,8 @@ impl AnyFleet {
     }
     fn is_connected(&self, env: &Env, name: &str) -> bool {
         match self {
-            AnyFleet::B(f) => f.is_connected(name).expect("node exists"),
-            AnyFleet::A(f) => env.rt.block_on(f.is_connected(name)).expect("node exists"),
+            AnyFleet::B(f) => f.is_connected(name).unwrap_or(false),
+            AnyFleet::A(f) => env.rt.block_on(f.is_connected(name)).unwrap_or(false),
         }
     }
 }
@@ -1217,7 +1237,7 @@ struct CaseOut {
 
 /// Coverage evidence: which value of each varied parameter the judged cases had.
 fn pv_counters(pv: &Pv, counters: &mut Vec<String>) {
-    let names = ["name_style", "tag_style", "method_style", "params", "node_timeout", "retry_delay", "default_timeout", "bystander", "handle", "malformed_kind"];
+    let names = ["name_style", "tag_style", "method_style", "params", "node_timeout", "retry_delay", "default_timeout", "bystander", "handle", "malformed_kind", "constructor"];
     for (n, v) in names.iter().zip(pv.fields()) {
         counters.push(format!("param.{n}.{v}"));
     }
@@ -1253,6 +1273,10 @@ fn check_call(kind: &str, max: usize, c: &CallRec, what: &str, sniffer_dependent
         c.t1.saturating_duration_since(c.t0).as_millis(),
         max
     );
+    // the fleet did not recognise its own node
+    if c.res.starts_with("FleetError") {
+        return Verdict::Fail(format!("fleet.{k}.report.neither_reply_nor_error"), ctx);
+    }
     // ---- evidence that depends on the sniffer must be complete and agree with what the fleet says ----
     // a refusal stamped before the call began was emitted for an earlier call and counted late
     if c.contacts.iter().any(|x| x.via == Via::Connect && x.t < c.t0) {
@@ -1589,7 +1613,7 @@ fn run_case(env: &Env, idx: &str, kind: &str, variant: &str, max: usize, seq: &[
             out.counters.push(format!("contact.{}", x.beh.name()));
         }
     }
-    out.counters.push(format!("case.{}.max{}.len{}", kind_name(kind), if max > 9 { "huge".to_string() } else { max.to_string() }, seq.len()));
+    out.counters.push(format!("case.{}.max{}.len{}", kind_name(kind), max.to_string(), seq.len()));
     pv_counters(pv, &mut out.counters);
     out.counters.push(format!("variant.{variant}"));
     out
@@ -2050,14 +2074,14 @@ fn run_bc(env: &Env, idx: &str, kind: &str, max: usize, nodes: &[BcNode], req: &
         0 => &fleet,
         _ => &held,
     };
-    let mut before: Vec<usize> = live.iter().map(|x| x.log_len()).collect();
+    let before = std::cell::RefCell::new(live.iter().map(|x| x.log_len()).collect::<Vec<usize>>());
     let mut req2: Vec<String> = req.iter().rev().cloned().collect();
     if let Some(first) = req.first() {
         req2.push(first.clone());
     }
     let real_req2: Vec<String> = req2.iter().map(|t| pv.tag(t)).collect();
     // one more round of requests to exactly `expect`, all answered: what the rounds below must show
-    let mut round = |what: &str, returned: Option<Vec<(String, Returned)>>, expect: &[String], out: &mut CaseOut| -> bool {
+    let round = |what: &str, returned: Option<Vec<(String, Returned)>>, expect: &[String], out: &mut CaseOut| -> bool {
         for x in &live {
             if let Err(r) = x.settle() {
                 out.skip = Some(r);
@@ -2073,8 +2097,8 @@ fn run_bc(env: &Env, idx: &str, kind: &str, max: usize, nodes: &[BcNode], req: &
         }
         let mut got: Vec<String> = vec![];
         for (i, (n, x)) in nodes.iter().zip(&live).enumerate() {
-            let d = x.log_len() - before[i];
-            before[i] = x.log_len();
+            let d = x.log_len() - before.borrow()[i];
+            before.borrow_mut()[i] = x.log_len();
             if d > 0 {
                 got.push(n.name.clone());
             }
@@ -2124,6 +2148,13 @@ fn run_bc(env: &Env, idx: &str, kind: &str, max: usize, nodes: &[BcNode], req: &
         let removed = handle.remove_node(env, &real_name(&gone));
         let known = fleet.try_call(env, &real_name(&gone), method).is_some();
         out.counters.push(format!("bc.membership.removed.{removed}.still_callable.{known}"));
+        if known {
+            // (a fleet that still knows the node has just called it)
+            for x in &live {
+                let _ = x.settle();
+            }
+            *before.borrow_mut() = live.iter().map(|x| x.log_len()).collect::<Vec<usize>>();
+        }
         let r3 = fleet.broadcast(env, method, params, &real_req, None);
         if !round(&format!("broadcast after remove_node({gone})"), Some(r3), &expect_for(req, Some(&gone)), &mut out) {
             return out;
@@ -2219,7 +2250,7 @@ fn exec(env: &Env, line: &str) -> CaseOut {
         ["case", idx, kind, variant, max, seq, ..] if w.len() <= 7 && ["b", "a"].contains(kind) && ["json", "jsonnp", "msg"].contains(variant) => {
             // a 7th word `dead=…` of a recorded op line is what an earlier run observed; it is observed again
             let (Ok(max), Some(seq)) = (max.parse::<usize>(), parse_seq(seq)) else { return bad() };
-            if max == 0 {
+            if max == 0 || max > 1000 {
                 return bad();
             }
             run_case(env, idx, kind, variant, max, &seq, pv)
@@ -2233,7 +2264,7 @@ fn exec(env: &Env, line: &str) -> CaseOut {
         ["life", idx, kind, max, seq, ops, ..] if w.len() <= 7 && ["b", "a"].contains(kind) => {
             let (Ok(max), Some(seq)) = (max.parse::<usize>(), parse_seq(seq)) else { return bad() };
             let ops: Vec<String> = ops.split(',').filter(|x| !x.is_empty()).map(|x| x.to_string()).collect();
-            if max == 0 || ops.is_empty() || !ops.iter().all(|o| ["conn", "disc", "reconn", "health", "call"].contains(&o.as_str())) {
+            if max == 0 || max > 1000 || ops.is_empty() || !ops.iter().all(|o| ["conn", "disc", "reconn", "health", "call"].contains(&o.as_str())) {
                 return bad();
             }
             run_life(env, idx, kind, max, &seq, &ops, pv)
@@ -2253,6 +2284,7 @@ fn all_seqs(len: usize) -> Vec<Vec<Beh>> {
 fn gen_cases(rng: &mut Rng, thorough: bool) -> Vec<String> {
     let mut ops = vec![];
     let mut n = 0usize;
+    let mut n_new = 0usize;
     let variants = ["json", "jsonnp", "msg"];
     // every third case has the ordinary value of every parameter (no `p=` word), the others a drawn one
     let mut push = |ops: &mut Vec<String>, rng: &mut Rng, kind: &str, max: usize, seq: &[Beh]| {
@@ -2289,10 +2321,12 @@ fn gen_cases(rng: &mut Rng, thorough: bool) -> Vec<String> {
             push(&mut ops, rng, kind, max, &seq);
         }
     }
-    // larger bounds, up to the largest a policy can hold (the script ends, then the node answers):
+    // larger bounds (the script ends, then the node answers):
     // sequences up to length 6 with at most two `silent`
     for _ in 0..(if thorough { 600 } else { 150 }) {
-        let max = *rng.pick(&[4usize, 5, 8, usize::MAX]);
+        // (not usize::MAX: a fleet — or the model under changed facts — that fails to leave the loop
+        // would then spin for ever instead of being caught at attempt max+1)
+        let max = *rng.pick(&[4usize, 5, 8, 64]);
         let len = rng.range(0, 6) as usize;
         let mut seq: Vec<Beh> = (0..len).map(|_| *rng.pick(&ALL_BEH)).collect();
         let mut silents = 0;
@@ -2306,6 +2340,21 @@ fn gen_cases(rng: &mut Rng, thorough: bool) -> Vec<String> {
         }
         let kind = if rng.chance(1, 2) { "b" } else { "a" };
         push(&mut ops, rng, kind, max, &seq);
+    }
+    // the twin constructor `new` (default options: 3 attempts, 1 s between them): scripts with at most
+    // one failing attempt, no `silent` (each retry costs the default delay)
+    {
+        let firsts = [Beh::Refused, Beh::Atc, Beh::Idle, Beh::Malformed, Beh::AppErr, Beh::Success];
+        for (i, b) in firsts.iter().enumerate() {
+            for kind in ["b", "a"] {
+                n_new += 1;
+                let mut pv = Pv::random_for(rng, &[*b]);
+                pv.op = 1;
+                pv.dl = 0;
+                let seq = if i % 2 == 0 { vec![*b] } else { vec![*b, Beh::Success] };
+                ops.push(format!("case d{n_new} {kind} {} 3 {} {}", ["json", "jsonnp", "msg"][n_new % 3], show_seq(&seq), pv.show()));
+            }
+        }
     }
     // what the constructors must refuse for the hypotheses of the theorems to hold (max_attempts >= 1,
     // distinct node names): if one is accepted, the clause it protects is judged on the result
